@@ -84,6 +84,8 @@ def run(ctx: Context) -> None:
     # (constant or linear series) makes the difference NaN, not 0 (nan_to_num rule shared with C20)
     from . import c20
     ctx.rule(c20.moments)
+    # invariance under reordering of the ensemble members of the likelihood loss rests on its pipeline (every member against every real point, one reduction)
+    ctx.rule(c07.r3_likelihood)
 
 
 def r1_purity(ctx: Context) -> None:
